@@ -22,7 +22,9 @@ TABLE = {
         "and over an alphabet with space / multi-byte / second name character "
         "up to length 8 is parsed by Serialization._parse_type and by an "
         "independent recursive-descent recogniser; acceptance, tree shape and "
-        "exception class must agree, also through Serialization.encode/decode. "
+        "exception class must agree, also through Serialization.encode/decode; "
+        "after every batch of calls all strings of length <= 5 are parsed "
+        "again (the parser must be a pure function of its argument). "
         "The grammar has no state, so complete enumeration of the input space "
         "up to a length is the exhaustive exploration that applies.",
         "Trusted: the 40-line reference recogniser; strings longer than the "
@@ -44,7 +46,8 @@ TABLE.update({
         "constructors with parent or children arguments and save+load, over a "
         "pool of 2 IRs, 2 modules and one node of every other kind and a second "
         "pool with 2 sections, 2 intervals, a code and a data block (thorough: "
-        "two wider pools), starting from detached nodes, a linked chain, a "
+        "two wider pools), a third pool with 3 modules in 2 IRs for list index "
+        "arithmetic, starting from detached nodes, a linked chain, a "
         "loaded file and two loads of one file; in every state every IR's "
         "get_by_uuid is compared, for every UUID of the pool and a foreign "
         "one, with the node reachable by public iteration.",
@@ -87,7 +90,10 @@ TABLE.update({
         "nested containers, every variant alternative). decode(encode(v)) "
         "must equal v bit for bit, attached UUIDs must come back as the node "
         "objects, and exact consumption is observed by framing the value "
-        "between sentinels and in a two-element sequence. The codec is a pure "
+        "between sentinels and in a two-element sequence; for all depth<=1 "
+        "types also through an AuxData table of an IR and of a module (save, "
+        "load, .data). Encodes and saves that FAIL part-way are interleaved "
+        "with the cases (nothing may leak into the next table). The codec is a pure "
         "function of (type, value), so complete enumeration of a bounded input "
         "space is the exhaustive exploration that applies.",
         "Trusted: mc/refcodec.py value model; set elements and mapping keys "
@@ -130,7 +136,8 @@ TABLE.update({
         "-1..10 the block's address, contents, contains_offset and "
         "contains_address equal their definitions; a neighbouring interval "
         "built from the same caller-owned bytearray and that bytearray itself "
-        "must never change; all constructor argument "
+        "must never change; initialized_size growth by 2^k and 2^k+-1 up to "
+        "4 MiB on buffers of 0, 1 and 8 bytes; all constructor argument "
         "combinations (size x initialized_size x contents length) are checked "
         "for ValueError exactly when initialized_size > size.",
         "Trusted: the two-field model. Sizes above 5 bytes are outside the "
@@ -149,7 +156,8 @@ TABLE.update({
         "thorough: 8 edges - and every reachable multigraph key layout and "
         "node-presence pattern) of add, discard, remove, pop, clear, update "
         "(also with a repeated edge), |=, &=, -=, ^= (also with the CFG "
-        "itself). The universe has a self-loop on a detached proxy, three "
+        "itself), membership tests as operations, discards through the "
+        "world's canonical Edge object and through a fresh equal one. The universe has a self-loop on a detached proxy, three "
         "parallel edges differing only in label (None vs all-false label vs "
         "another) and opposite directions. After every transition len, "
         "iteration (no duplicates), membership of every universe edge, "
@@ -179,7 +187,10 @@ TABLE.update({
         "Pool: IR > 2 modules > 2 sections, 4 byte intervals (3 in one "
         "section), 4 blocks (3 in one interval, code and data) so that "
         "first-build, incremental-replay and rebuild paths of the lazy index "
-        "are all taken (counted in the evidence). Alphabet (91 operations): "
+        "are all taken (counted in the evidence). A second, deeper exploration "
+        "(<= 3 operations quick, <= 5 thorough) uses only the two 'movers' "
+        "(attach / detach / edit while away / come back) and lookups. Alphabet "
+        "(93 operations): "
         "interval address/size edits, block offset/size edits, block and "
         "interval moves by setter and by add/discard/update/clear, section "
         "and module moves, four kinds of lookups, save+load. Every reached "
@@ -300,7 +311,9 @@ TABLE.update({
         "(address None/0/2^64-1, int64 bounds, empty / non-ASCII / long "
         "names, every constant of every schema enum, nil and all-ones UUIDs, "
         "zero-sized and overlapping twin blocks), each built in 5 construction "
-        "orders. Oracle: the snapshot of the API-built IR equals the "
+        "orders plus a sixth that builds a slightly different IR, saves, loads "
+        "and finishes the LOADED IR by public edits (AuxData completed in "
+        "place after reading, renames). Oracle: the snapshot of the API-built IR equals the "
         "specification's; the loaded IR's snapshot equals the original's; "
         "deep_eq holds both ways; the re-saved message is canonically equal.",
         _IR_NOTE, "3/C01"),
@@ -346,14 +359,15 @@ TABLE.update({
         "exhaustive enumeration of action histories over save/load "
         "generations for a catalogue of tables, executed on the real code, "
         "byte-level model",
-        "31 tables (16 known types with canonical bytes incl. tuples / "
+        "37 tables (16 known types with canonical bytes incl. tuples / "
         "variants / mappings with mutable members, 4 known types with "
         "non-canonical but decodable bytes, 2 wholly unknown types, 4 "
         "partially unknown types whose unknown part is reached by the bytes "
-        "and 5 where it is not), at IR and at module level; all sequences of "
+        "and 11 where it is not - with the unknown name at every sibling "
+        "position next to parametrised siblings), at IR and at module level; all sequences of "
         "{leave, read, read twice, read + mutate in place, assign, assign "
         "after read, change type name with / without a prior read, assign "
-        "the same type name} over 1-2 (thorough 1-3) save/load generations; "
+        "the same type name} over 1-3 (thorough 1-4) save/load generations; "
         "generation 0 is a file built with the descriptor classes. After "
         "every save the written type name and bytes are compared with the "
         "model: untouched => byte-identical; unknown name anywhere in the "
@@ -374,7 +388,8 @@ TABLE.update({
         "message type, oneof case and reference kind). Every truncation, "
         "every single-bit flip, 16 (thorough: all 255) substitutions of every "
         "byte, every header byte x 256 values, and per file ~150 structural "
-        "faults: every ordered pair of node UUIDs made equal, UUIDs of length "
+        "faults: every ordered pair of node UUIDs made equal (with and without "
+        "the references following), UUIDs of length "
         "0/15/17, undefined enum numbers, cleared oneofs, interval size below "
         "contents, message/header version mismatches, nodes listed twice. "
         "Outcome must be an exception (ValueError specifically for magic / "
@@ -402,7 +417,9 @@ TABLE.update({
         "copies). For ALL 136k ordered pairs a.deep_eq(b) must equal equality "
         "of the compared content computed from the two specifications, "
         "likewise CFG.deep_eq, and node-level deep_eq for every UUID-matched "
-        "node pair between the base and each variant in both directions.",
+        "node pair between the base and each variant in both directions; and "
+        "a compare / edit one side in place / compare-again pass (deep_eq must "
+        "not depend on earlier calls).",
         "Trusted: ir_snap / node_snap in mc/checks/c18.py.",
         "3/C18"),
 })
